@@ -291,6 +291,36 @@ func execC04(c lsw.Case) (res core.Result) {
 			w.AppStep(o)
 		}
 	}
+	// Recovery: after the last disturbance replication must come back by itself. With every application transaction
+	// ended and nothing else running, a sync-and-wait that still fails on the third consecutive attempt means litestream
+	// neither proved continuity nor started over - it is stuck. (Errors on the first attempts are fine: one failed sync
+	// is how some of the conditions are noticed.)
+	if ep != nil && ep.Pending && w.DB != nil {
+		for c := 0; c < lsw.NumConns; c++ {
+			w.AppStep(lsw.Op{K: "rollback", C: c})
+			w.AppStep(lsw.Op{K: "endread", C: c})
+		}
+		var lastErr error
+		for k := 0; k < 3 && ep.Pending; k++ {
+			w.AppStep(lsw.Op{K: "insert", T: 0, N: 1, S: 0})
+			sr := w.LSStep(lsw.Op{K: "syncwait"})
+			lastErr = sr.Err
+			if sr.Acked {
+				if v := checkAck(len(c.Ops)+k, lsw.Op{K: "syncwait"}); v != nil {
+					res.Violation = v
+					return res
+				}
+				ep.Pending = false
+			}
+		}
+		if ep.Pending {
+			res.Violation = &core.Violation{Oracle: "no-recovery", Msg: fmt.Sprintf("after the history%s: three consecutive sync-and-wait calls on a quiet database all fail, replication does not come back: %v", epDesc(ep), lastErr)}
+			if ep.Kind == "reopen" && ep.MetaLost {
+				res.Violation.Shapes = append(res.Violation.Shapes, "reopen-after-meta-lost-stuck")
+			}
+			return res
+		}
+	}
 	return res
 }
 
